@@ -12,7 +12,9 @@ RULE = ("AGP text written by format_agp for random assemblies (gaps >= 1), by th
 TRUSTED = ["correspondence harness props/C06.py: format_agp text vs Lean formatAgp text; independent AGP reader text_lib.validate_agp_text",
            "modelled not verified: file writing; the remap pipeline and the indexer are tied by C01/C04's correspondence"]
 ASSUMPTIONS = ["gap lengths >= 1 (an AGP gap line needs a positive length; zero/negative gaps only arise from invalid input)"]
-EXPLANATION = "format_agp_valid proved in Lean by induction with the running position; tie by text-level correspondence; oracle = independent AGP validator."
+EXPLANATION = "format_agp_valid proved in Lean by induction with the running position, and composed with the builders: every assembly remap returns (remap_agp_valid, written_agp_valid incl. name_assemblies) and every assembly index_fasta_file derives (index_agp_valid, last end = record length) is written as a strictly valid AGP; tie by text-level correspondence; oracle = independent AGP validator."
+LEVEL_NOTE = ("writer: `format_agp_valid(_strict)` for all assemblies with writable strands; builders: `remap_rows_strict` → `remap_agp_valid` / `written_agp_valid` (input rows strict: fragments start ≤ end, gaps ≥ 1 with a type) and `index_rows_strict` → `index_agp_valid` (any well-formed FASTA, any buffer size, LF/CRLF, open last line), `fasta_remap_agp_valid` (FASTA in → AGP out, no row hypothesis left); "
+              "garbage in, garbage out is proved too: parse_agp accepts a zero-length gap row and it is written back as end = start − 1 (`parse_agp_accepts_empty_gap`, `remap_keeps_empty_gap`): input validation is not part of the property; " + "; ".join(TRUSTED))
 
 
 def lengths(scs):
